@@ -375,6 +375,20 @@ both('t_macs_sugar', MCS, [], body=['pub struct P;'] + [d + ';' for d in MCS] + 
 both('t_macs_core', MCS,
      ['r(x, s) <-- k(x), pt(x, ?Pt { t: t1, u: u1 }), let s = t1 + u1',
       'r(t, s) <-- k(t), pt(t, ?Pt { t: t1, u: u1 }), let s = t1 + u1, pt((t + 1), ?Pt { t: t2, u: u2 }), let s2 = t2 + u2, if s2 > s'], pre=PT_PRE, tags=['twin'])
+# the name spaces of the macro's fresh identifiers are disjoint: hygiene of in-program macros / repeated variables / ?pattern arguments
+MACF = ['macro m1($r: ident) { $r(x) }',
+        'macro m2($a: expr) { edge($a, arg_pattern), k(arg_pattern) }',
+        'macro m3($a: expr) { p($a, x), p(x, x) }']
+both('t_macf_sugar', MCS, [], body=['pub struct P;'] + [d + ';' for d in MCS] + MACF + [
+     'a(x) <-- b(x, x), m1!(k);',
+     'a(y) <-- pt(y, ?Pt { t, u }), m2!(*t + *u);',
+     'a(x) <-- b(x, x), m3!(x);',
+     'a(x) <-- b(x, x), m1!(k), m1!(a);'], pre=PT_PRE, tags=['twin'], twin=('t_macf_core', 'L'))
+both('t_macf_core', MCS,
+     ['a(x) <-- b(x, x), k(x1)',
+      'a(y) <-- pt(y, ?Pt { t, u }), edge((*t + *u), ap1), k(ap1)',
+      'a(x) <-- b(x, x), p(x, x1), p(x1, x1)',
+      'a(x) <-- b(x, x), k(x1), a(x2)'], pre=PT_PRE, tags=['twin'])
 # `expr` parameters stand for one operand
 MACX = ['macro dbl($x: expr, $r: ident) { let $r = $x * 2 }',
         'macro neg1($x: expr, $r: ident) { let $r = 0 - $x }',
